@@ -167,7 +167,10 @@ def main():
     directed = json.load(open(os.path.join(VERIF, "corpus", "C04.json")))["directed"]
     for item in directed:
         base = run(item["definition"], item["input"], item["worker_seed"], tmpd, child=item.get("child_definition"))
-        scenarios.append((item["scenario"], item["definition"], item["input"], item["worker_seed"], dict(base, only_points=[item["crash_after_step"]]), item.get("child_definition")))
+        if item.get("crash_after_step") is None:
+            scenarios.append((item["scenario"], item["definition"], item["input"], item["worker_seed"], dict(base, all_points=True), item.get("child_definition")))
+        else:
+            scenarios.append((item["scenario"], item["definition"], item["input"], item["worker_seed"], dict(base, only_points=[item["crash_after_step"]]), item.get("child_definition")))
     child_bad = []
 
     def children_ok(r, d):
@@ -185,7 +188,7 @@ def main():
         points = list(range(0, base["steps"] + 1))
         if base.get("only_points"):
             points = base["only_points"]
-        elif not thorough and len(points) > 12:
+        elif not thorough and len(points) > 12 and not base.get("all_points"):
             points = sorted(rng.sample(points, 12))
         for k in points:
             r = run(definition, data, seed, tmpd, crash_after_step=k, child=child)
